@@ -1056,7 +1056,9 @@ package leader
 //@   loop 0 invariant C06.periodic_check_armed: tickerArmed && !tick && onTrackedGoroutine
 //@   ghost gotEntry Bool = false
 //@   ghost handledEntry Bool = false
+//@   on recv chan as r set gotEntry = r.ok
 //@   on recv Watcher.Updates as r set gotEntry = r.ok
+//@   on recv chan set handledEntry = false
 //@   on recv Watcher.Updates set handledEntry = false
 //@   on call handleWatchEvent set handledEntry = true
 //@   on backedge 0 assert C10+C06+C07+C18.every_delivered_change_is_handled: gotEntry ==> handledEntry
